@@ -7,6 +7,7 @@
     only one that may be called public.default, per layer the glyph map, the file-name index and
     the taken-set in step, file names and directories distinct ignoring case, names valid.
     Everything is for ALL [is_upper], [lower], states and operations. *)
+From Coq Require Import String.
 Require Import Norad.Model.Base Norad.Model.FileName Norad.Model.Layer Norad.Proofs.FileNameP Norad.Proofs.LayerP.
 From stdpp Require Import gmap.
 
@@ -14,21 +15,20 @@ From stdpp Require Import gmap.
 Theorem C06_inv_init : forall lower, Inv lower init.
 Proof. exact inv_init. Qed.
 
-(** A loaded font satisfies it.  Loading itself checks (fixes 83f6c18, afd801a, 8d15b4b, 59e280a)
-    that layer names and directories are unique, that only "glyphs" is called public.default and
-    that directories and glif names are plain and unique — comparing EXACTLY; [wf_disk] is what it
-    does not check: directories, and glif names within a layer, that are equal ignoring case. *)
-Theorem C06_inv_loaded : forall lower d s, wf_disk lower d -> load lower d = Some s -> Inv lower s.
+(** Every font that loads satisfies it: loading itself checks (fixes 83f6c18, afd801a, 8d15b4b,
+    59e280a, f6784f0) that layer names are unique, that directories and the glif names within a
+    layer are plain and unique ignoring case, and that only "glyphs" is called public.default. *)
+Theorem C06_inv_loaded : forall lower d s, load lower d = Some s -> Inv lower s.
 Proof. exact inv_loaded. Qed.
-(** ... without it: a tree with duplicate layer names is refused, but one with two directories
-    that differ only by case loads, violates the invariant, and after [remove] + [new_layer] a
-    directory is assigned twice and saving fails (known finding load-case-clash). *)
-Theorem C06_loaded_refuted :
-  load ascii_lower dup_disk = None /\
-  exists s, load ascii_lower clash_disk = Some s /\ ~ Inv ascii_lower s /\
-    exists s2, run ascii_is_upper ascii_lower s [RemoveLayer nB; NewLayer nA] = Some s2 /\
-               (step ascii_is_upper ascii_lower s2 SaveLoad).2 = OErr SaveErr.
-Proof. exact load_case_clash_refuted. Qed.
+(** non-vacuity: duplicate names and case-clashing directories are refused; a tree whose default
+    layer is listed in the middle loads with the default layer first, and directories assigned
+    afterwards avoid every loaded directory *)
+Example C06_load_examples :
+  load ascii_lower dup_disk = None /\ load ascii_lower clash_disk = None /\
+  exists s, load ascii_lower mid_disk = Some s /\ (l_name <$> layers s) = [DEFAULT_LAYER_NAME; nb; nB] /\
+    exists s2, run ascii_is_upper ascii_lower s [NewLayer [97%N]; NewLayer nA] = Some s2 /\
+      layer_dir s2 [97%N] = Some (s2l "glyphs.a01"%string) /\ layer_dir s2 nA = Some (s2l "glyphs.A_01"%string).
+Proof. exact load_examples. Qed.
 
 (** Every operation preserves it, except raw [Layer::entry] access that changes the glyph map. *)
 Definition C06_full : Prop :=
@@ -77,11 +77,26 @@ Theorem C06_reachable_plain : forall is_upper lower ops s s',
   Inv lower s' /\ Plain s'.
 Proof. exact reachable_plain. Qed.
 
-(** Saving and loading a font that satisfies the invariant (and whose names are plain) succeeds
-    and yields exactly its layers (names, order, directories, glyph names, file names): nothing
-    dropped, nothing phantom. *)
-Theorem C06_save_load_exact : forall lower s, Inv lower s -> Plain s ->
-  exists d, save s = SOk d /\ exists s', load lower d = Some s' /\ layers s' = layers s /\ Inv lower s' /\ Plain s'.
+(** No directory other than the default layer's equals "glyphs" ignoring case: initially, after
+    loading, and after every operation — given that [lower] tells "glyphs" from "glyphs." ++ m
+    (the only assumption about [lower] anywhere; true of str::to_lowercase). *)
+Theorem C06_sep_init : forall lower, Sep lower init.
+Proof. exact sep_init. Qed.
+Theorem C06_sep_loaded : forall lower d s, load lower d = Some s -> Sep lower s.
+Proof. exact sep_loaded. Qed.
+Theorem C06_sep_step : forall is_upper lower s o, lower_separates lower ->
+  Inv lower s -> Sep lower s -> Sep lower (step is_upper lower s o).1.
+Proof. exact sep_step. Qed.
+Theorem C06_reachable_sep : forall is_upper lower ops s s', lower_separates lower ->
+  Inv lower s -> Sep lower s -> clean is_upper lower s ops -> run is_upper lower s ops = Some s' ->
+  Inv lower s' /\ Sep lower s'.
+Proof. exact reachable_sep. Qed.
+
+(** Saving and loading a font that satisfies the invariants succeeds and yields exactly its
+    layers (names, order, directories, glyph names, file names): nothing dropped, nothing phantom. *)
+Theorem C06_save_load_exact : forall lower s, Inv lower s -> Plain s -> Sep lower s ->
+  exists d, save s = SOk d /\ exists s', load lower d = Some s' /\ layers s' = layers s /\
+            Inv lower s' /\ Plain s' /\ Sep lower s'.
 Proof. exact save_load_exact. Qed.
 
 (** The only panics an operation can raise on a consistent font are the documented 99-tries
